@@ -37,6 +37,10 @@ type Cfg struct {
 	GEPBias bool
 	// DebugInfo adds a specialised debug-info metadata graph (DICompileUnit, DIFile, types, scopes, locations ...).
 	DebugInfo bool
+	// LLVM15 adds keywords that the library models but LLVM 14 does not know (uwtable(sync|async), allockind,
+	// sanitizer keywords on global variables): only for checks whose oracle is not LLVM 14 itself (C02 judges the
+	// library's own fixpoint and asks LLVM 14 about the text with those keywords mapped to what it knows)
+	LLVM15 bool
 	// NoScale switches the occasional large module off (checks whose cost grows quadratically).
 	NoScale bool
 	scaled  bool
